@@ -78,20 +78,14 @@ func (k c05Case) parameters() dcodec.Parameters {
 	return q
 }
 
-// effective values after the generic extraction rules (generic "rate" only overrides when > 0, …)
 func (k c05Case) inScope() bool {
 	p := k.Par
 	if p.Default {
 		return true
 	}
-	if p.Generic {
-		// the generic path starts from the defaults (Rate=20, AppendLosslessLayer=true) and the keys override
-		rate := 20
-		if p.Rate > 0 {
-			rate = p.Rate
-		}
-		return p.Append || (rate == 0 && p.Target == 0)
-	}
+	// a generic bag always carries the "rate" key (genericParams sets it), so it asks for exactly what the typed
+	// object with the same values asks for: the scope is decided from the REQUEST, never from the library's own
+	// extraction rule (mirroring that rule here hid the "rate": 0 defect, fixed by 21bcf21)
 	return p.Append || (p.Rate == 0 && p.Target == 0)
 }
 
